@@ -290,7 +290,16 @@ def rand_msg(r, kind):
         return {"mode": r.getrandbits(1)}
     if kind == "originating_id":
         a, b = r.choice(C.WIDTHS), r.choice(C.WIDTHS)
-        return {"src": [a, rand_uint(r, 8 * a)], "seq": [b, rand_uint(r, 8 * b)]}
+        global _LAST_ORIG
+        if _LAST_ORIG is not None and r.random() < 0.15:
+            # numeric twin of the id generated before: same numbers, other widths
+            v1, v2 = _LAST_ORIG
+            a = r.choice([w for w in C.WIDTHS if v1 < 1 << 8 * w])
+            b = r.choice([w for w in C.WIDTHS if v2 < 1 << 8 * w])
+        else:
+            v1, v2 = rand_uint(r, 8 * a), rand_uint(r, 8 * b)
+        _LAST_ORIG = (v1, v2)
+        return {"src": [a, v1], "seq": [b, v2]}
     if kind == "listing_request":
         return {"path": name(r.choice((0, 5, 40, 120))), "file": name(r.choice((0, 5, 40, 120)))}
     if kind == "listing_response":
@@ -298,6 +307,9 @@ def rand_msg(r, kind):
     if kind == "listing_options":
         return {"recursive": r.getrandbits(1), "all": r.getrandbits(1)}
     raise AssertionError(kind)
+
+
+_LAST_ORIG = None
 
 
 def selftest(ctx):
@@ -331,6 +343,16 @@ def run(ctx):
         for n1 in (0, 1, 17, 100):
             for n2 in (0, 1, 17, 100):
                 k_msg(ctx, "put_request", {"dest_id": [a, rand_uint(r, 8 * a)], "src": "s" * n1, "dst": rand_name(r, n2) if n2 else ""})
+    # the same numbers carried in every width that holds them, one after the other (both orders)
+    for v1, v2 in ((0, 0), (1, 5), (0xFF, 0xFF), (0x100, 7), (0xFFFF, 0x1234), (0x10000, 0xFFFFFFFF), (3, 0x100000000)):
+        ws1 = [w for w in C.WIDTHS if v1 < 1 << 8 * w]
+        ws2 = [w for w in C.WIDTHS if v2 < 1 << 8 * w]
+        for order in (1, -1):
+            for a in ws1[::order]:
+                for b in ws2[::order]:
+                    k_msg(ctx, "originating_id", {"src": [a, v1], "seq": [b, v2]})
+            for a in ws1[::order]:
+                k_msg(ctx, "put_request", {"dest_id": [a, v1], "src": "s", "dst": "d"})
     ctx.exhaustive.append("put response: 13 condition codes x 2 x 4; closure / mode / listing option flags; 16 width combinations of the originating transaction id; "
                           "4 entity-id widths x name-length grid of the put request")
     for n1 in (0, 1, 60, 124, 125, 200, 250):
